@@ -169,7 +169,7 @@ def sentinel(w):
 
 def run(tier, seed):
     rep = Report("C20", tier, seed, "exploration")
-    n = 400 if tier == "quick" else 20000
+    n = 1600 if tier == "quick" else 20000
     rep.rule = ("random column type lists (12 types), 0-40 rows with NULLs and strings containing delimiter/quote/newline/blank "
                 "characters, delimiter in {, | ; tab}, quote in {\" '}, COPY table or COPY (query); distinct non-trivial = distinct "
                 "(types, options) with at least one row exported")
